@@ -48,7 +48,18 @@ func init() {
 		i := fr.i
 		i.ps.keys++
 		i.ps.keygens++
+		// a scalar just below the group order: valid, distinct per key, and -
+		// like almost every real key - without leading zero bytes
 		d := big.NewInt(int64(7000 + i.ps.keys))
+		if curveItf, ok := args[0].(iface); ok && curveItf.t != nil {
+			paramsFn := i.prog.LookupMethod(curveItf.t, nil, "Params")
+			if paramsFn != nil {
+				if pp, ok := call(i, fr, 0, paramsFn, []value{curveItf.v}).(*value); ok && pp != nil {
+					n := bigFromValue((*pp).(structure)[1].(*value)) // CurveParams{P, N, ...}
+					d = new(big.Int).Sub(n, d)
+				}
+			}
+		}
 		x, y := pointFor(d)
 		bt := i.bigIntType()
 		privT := mustDeref(fr.fn.Signature.Results().At(0).Type())
